@@ -208,6 +208,79 @@ theorem not_reduced_of_moves {w w' : List B} (h : Relation.ReflTransGen (Move M)
 
 end braid
 
+/-! ## executable certificates -/
+
+section
+variable {B : Type} [DecidableEq B] {W : Type*} [Group W] {M : CoxeterMatrix B} (cs : CoxeterSystem M W)
+
+theorem applyStep_sound {w w' : List B} {s : CertStep} (h : applyStep (fun a b => M a b) w s = some w') :
+    Move M w w' := by
+  cases s with
+  | square pos =>
+    simp only [applyStep] at h
+    split at h
+    · rename_i a b rest hd
+      split at h
+      · rename_i hab
+        subst hab
+        cases h
+        have : w = w.take pos ++ [a, a] ++ rest := by
+          conv_lhs => rw [← List.take_append_drop pos w, hd]
+          simp
+        have key := Move.square (M := M) (w.take pos) rest a
+        rw [← this] at key
+        exact key
+      · cases h
+    · cases h
+  | braid pos =>
+    simp only [applyStep] at h
+    split at h
+    · rename_i a b rest hd
+      split at h
+      · rename_i hc
+        cases h
+        obtain ⟨h1, h2⟩ := hc
+        have hw : w = w.take pos ++ altFrom a b (M a b) ++ w.drop (pos + M a b) := by
+          conv_lhs => rw [← List.take_append_drop pos w, ← List.take_append_drop (M a b) (w.drop pos), h1]
+          simp [List.drop_drop, List.append_assoc]
+        rw [altFrom_eq] at hw
+        rw [altFrom_eq]
+        have hsym : M b a = M a b := M.symmetric b a
+        by_cases he : Even (M a b)
+        · rw [if_pos he] at hw ⊢
+          conv_lhs => rw [hw]
+          have := Move.braid (M := M) (w.take pos) (w.drop (pos + M a b)) a b
+          unfold CoxeterSystem.braidWord at this
+          rw [hsym] at this
+          exact this
+        · rw [if_neg he] at hw ⊢
+          conv_lhs => rw [hw]
+          have := Move.braid (M := M) (w.take pos) (w.drop (pos + M a b)) b a
+          unfold CoxeterSystem.braidWord at this
+          rw [hsym] at this
+          exact this
+      · cases h
+    · cases h
+
+/-- **certificate soundness**: if the executable checker accepts a certificate turning `w` into a
+shorter word, then `w` is not reduced in *any* Coxeter system with that matrix -/
+theorem checkCert_sound : ∀ (steps : List CertStep) (w w' : List B),
+    checkCert (fun a b => M a b) w steps = some w' → Relation.ReflTransGen (Move M) w w'
+  | [], w, w', h => by simp only [checkCert, Option.some.injEq] at h; subst h; exact .refl
+  | s :: ss, w, w', h => by
+    simp only [checkCert] at h
+    cases h1 : applyStep (fun a b => M a b) w s with
+    | none => rw [h1] at h; cases h
+    | some w1 =>
+      rw [h1] at h
+      exact Relation.ReflTransGen.head (applyStep_sound h1) (checkCert_sound ss w1 w' h)
+
+theorem not_reduced_of_cert (steps : List CertStep) (w w' : List B)
+    (h : checkCert (fun a b => M a b) w steps = some w') (hl : w'.length < w.length) :
+    ¬ cs.IsReduced w :=
+  not_reduced_of_moves cs (checkCert_sound steps w w' h) hl
+end
+
 /-! ## non-vacuity -/
 
 /-- the hypotheses of `automaton_wf`, `no_square`, `shortlex_subset_geodesic` are satisfiable:
@@ -220,5 +293,10 @@ example : generateAutomaton (fun _ _ => none) 2 2 true 10 =
 example {B W : Type*} [Group W] {M : CoxeterMatrix B} (cs : CoxeterSystem M W) (i : B) :
     ¬ cs.IsReduced [i, i] :=
   not_reduced_of_moves cs (w' := []) (Relation.ReflTransGen.single (Move.square [] [] i)) (by simp)
+
+/-- the certificate checker accepts a genuine certificate: in the (3,3,∞)-type matrix with `m(0,1) = 3`
+the word `0 1 0 1` is rewritten by a braid move at 0 to `1 0 1 1` and the square at 2 is deleted -/
+example : checkCert (fun a b : Nat => if a = b then 1 else if a + b = 1 then 3 else 0) [0, 1, 0, 1]
+    [.braid 0, .square 2] = some [1, 0] := by decide
 
 end GT.C07
